@@ -339,7 +339,12 @@ struct FsWorld {
             if (seen_before-- == 0) {
               std::string big;
               int nd = (int)std::max<long long>(10, std::min<long long>(40, op.b));
-              if (nd == 10) big = op.c ? "2147483647" : "2147483648"; else { big = "9"; for (int k = 1; k < nd; k++) big += (char)('0' + (k * 7) % 10); }
+              // values at the edges of the word and of wider accumulators: a conversion that wraps must still reject them
+              static const char *EDGE[] = {"4294967296", "4294967301", "9223372036854775807", "9223372036854775808", "18446744073709551615", "18446744073709551616", "18446744073709551621",
+                                           "36893488147419103232", "340282366920938463463374607431768211456", "10000000000000000000000000000000000000000000000000000000000000000", "1267650600228229401496703205376", "4294967295"};
+              if (nd == 10) big = op.c ? "2147483647" : "2147483648";
+              else if (nd % 3 == 0) big = EDGE[(size_t)(op.a / 7 + nd) % 12];
+              else { big = "9"; for (int k = 1; k < nd; k++) big += (char)('0' + (k * 7) % 10); }
               f.replace(s.a, s.b - s.a, big);
               fired("literal_inflate");
               break;
@@ -421,6 +426,10 @@ struct FsWorld {
     ctx.ev("compiled", s.returned, s.ok, s.nerrors);
     ctx.ev("work", mon.total(), mon.cnt[Theo::verif::MACRO_PASS], mon.final_len);
     ctx.sim_steps += mon.total();
+    ctx.stats.max("max_table_construction_rounds", mon.table_events);
+    ctx.stats.max("max_parser_steps_per_1000_final_tokens", mon.final_len > 0 ? 1000 * (mon.cnt[Theo::verif::PARSE_P] + mon.cnt[Theo::verif::PARSE_TRAILING]) / mon.final_len : 0);
+    ctx.stats.max("max_generator_steps_per_1000_final_tokens", mon.final_len > 0 ? 1000 * mon.cnt[Theo::verif::GEN_NODE] / mon.final_len : 0);
+    ctx.stats.max("max_extract_steps_per_1000_tokens", mon.scan_tokens > 0 ? 1000 * mon.cnt[Theo::verif::MACRO_EXTRACT] / mon.scan_tokens : 0);
     judge_totality(s, mon, leaked, leak_bytes, "compile");
     if (s.returned) {
       ctx.stats.inc(s.ok ? "compile_ok" : "compile_rejected");
